@@ -261,23 +261,26 @@ class SymCtx:
         return out
 
     def _eval_obs(self, model):
-        out = []
-        for name, v in self.obs:
+        def ev(v):
             if isinstance(v, SymBool):
-                v = z3.is_true(model.eval(v.e, model_completion=True))
-            elif isinstance(v, z3.BoolRef):
-                v = z3.is_true(model.eval(v, model_completion=True))
-            elif isinstance(v, SymStr):
-                v = ''.join(chr(c) if isinstance(c, int) else chr(
+                return z3.is_true(model.eval(v.e, model_completion=True))
+            if isinstance(v, z3.BoolRef):
+                return z3.is_true(model.eval(v, model_completion=True))
+            if isinstance(v, SymStr):
+                return ''.join(chr(c) if isinstance(c, int) else chr(
                     model.eval(c.e, model_completion=True).as_long())
                     for c in v.chars)
-            elif isinstance(v, (SymChoice, SymInt)):
+            if isinstance(v, (SymChoice, SymInt)):
                 raise Unmodelled('observe() of an unconcretised choice')
-            elif isinstance(v, Summary):
-                v = [[k, bool(x) if k == 'ret' else x]
-                     for k, x in v.describe(model)]
-            out.append([name, jsonable(v)])
-        return out
+            if isinstance(v, Summary):
+                return [[k, bool(x) if k == 'ret' else x]
+                        for k, x in v.describe(model)]
+            if isinstance(v, (list, tuple)):
+                return [ev(x) for x in v]
+            if isinstance(v, dict):
+                return {str(k): ev(x) for k, x in v.items()}
+            return jsonable(v)
+        return [[name, ev(v)] for name, v in self.obs]
 
     def require(self, cond, label, key=None, detail=None):
         """Obligation: *cond* holds for every value of the inputs here."""
@@ -330,6 +333,8 @@ class SymCtx:
                 val = type(val).__name__
             rows.append((sub.pc(), kind, val))
         st = self.eng.stats
+        st.concretize_forks = getattr(st, 'concretize_forks', 0) + getattr(
+            sub.stats, 'concretize_forks', 0)
         st.nested_paths += sub.stats.paths
         st.decisions += sub.stats.decisions
         st.queries += sub.stats.queries
